@@ -395,10 +395,12 @@ static void gt_exp_gls_sac(gt_t c, const gt_t a, const bn_t b, size_t d,
 static void gt_exp_reg_sac(gt_t c, const gt_t a, const bn_t b, size_t d,
 		size_t f) {
 	size_t l, s = (1 << (f / d - 1));
+	/* q[1] and q[2] double as temporaries below, also when f < 3 (GMT8). */
+	size_t nq = RLC_MAX(f, 3);
 	bn_t n, *_b = RLC_ALLOCA(bn_t, f), u;
 	int8_t col, *e = RLC_ALLOCA(int8_t, d);
 	int8_t *sac = RLC_ALLOCA(int8_t, d * f * RLC_FP_BITS);
-	gt_t *q = RLC_ALLOCA(gt_t, f), *t = RLC_ALLOCA(gt_t, d * s);
+	gt_t *q = RLC_ALLOCA(gt_t, nq), *t = RLC_ALLOCA(gt_t, d * s);
 
 	if (sac == NULL || e == NULL || t == NULL || _b == NULL || q == NULL) {
 		RLC_THROW(ERR_NO_MEMORY);
@@ -413,8 +415,10 @@ static void gt_exp_reg_sac(gt_t c, const gt_t a, const bn_t b, size_t d,
 		bn_new(u);
 		for (int i = 0; i < f; i++) {
 			bn_null(_b[i]);
-			gt_null(q[i]);
 			bn_new(_b[i]);
+		}
+		for (size_t i = 0; i < nq; i++) {
+			gt_null(q[i]);
 			gt_new(q[i]);
 		}
 		for (size_t i = 0; i < d; i++) {
@@ -494,6 +498,8 @@ static void gt_exp_reg_sac(gt_t c, const gt_t a, const bn_t b, size_t d,
 		bn_free(u);
 		for (int i = 0; i < f; i++) {
 			bn_free(_b[i]);
+		}
+		for (size_t i = 0; i < nq; i++) {
 			gt_free(q[i]);
 		}
 		for (size_t i = 0; i < d; i++) {
